@@ -40,6 +40,7 @@ type event struct {
 	RemPort int   `json:"remPort,omitempty"` // out: explicit destination port (0 = the remote socket's), for unbound ports
 	Target string `json:"target,omitempty"` // in: "map:<n>" n-th learned external address (mod), "fresh" never-allocated port, "unpaired" IP
 	IdleNs int64  `json:"idleNs,omitempty"`
+	Race   bool   `json:"race,omitempty"` // out: while it is written, the remote it goes to sends a datagram to the external address this flow had last (inbound and outbound translation of one flow run side by side)
 	Form   int    `json:"form,omitempty"` // representation of the destination IP handed to WriteTo: 0 as stored, 1 four-byte, 2 sixteen-byte
 }
 
@@ -51,6 +52,7 @@ type scenario struct {
 	Internal  int     `json:"internal"` // number of internal sockets (two per host)
 	Remotes   int     `json:"remotes"`  // number of remote sockets (two per host: same IP, other port)
 	Events    []event `json:"events"`
+	NatDelayNs int64  `json:"natDelayNs,omitempty"` // MinDelay of the NAT router: it handles an outbound datagram no sooner than this after the write
 	PairMix   int     `json:"pairMix,omitempty"` // 1:1 mode: 0 pairs listed ascending, 1 listed in reverse order, 2 crossed (lowest external IP with highest local IP)
 	RemoteSet int     `json:"remoteSet,omitempty"` // which set of remote host addresses (see remoteSets)
 	Exhaust   bool    `json:"exhaust"` // first create 16385 mappings towards distinct remote ports
@@ -67,10 +69,14 @@ func gen(r *harn.Rng, tier string) interface{} {
 	if sc.OneToOne == 0 && r.Bool(0.25) {
 		sc.TwoIPs = true
 	}
-	sc.RemoteSet = r.Intn(2)
+	sc.RemoteSet = r.Pick(0, 1, 0, 1, 2)
 	sc.PairMix = r.Pick(0, 0, 1, 2)
+	if r.Bool(0.2) {
+		sc.NatDelayNs = sc.LifeNs / int64(r.Pick(2, 4, 10))
+	}
 	if (tier == "thorough" && r.Bool(0.02)) || r.Bool(0.0015) || os.Getenv("VERIF_C02_EXHAUST") != "" {
 		sc.Exhaust = true
+		sc.NatDelayNs = 0
 		sc.Mapping = 2
 		sc.OneToOne = 0
 		sc.LifeNs = 30000 * 1e6 // the bursts take simulated time; the reused mapping must outlive them
@@ -84,7 +90,7 @@ func gen(r *harn.Rng, tier string) interface{} {
 		x := r.Intn(100)
 		switch {
 		case x < 45:
-			e := event{K: "out", Int: r.Intn(sc.Internal), Rem: r.Intn(sc.Remotes), Form: r.Pick(0, 0, 1, 2)}
+			e := event{K: "out", Int: r.Intn(sc.Internal), Rem: r.Intn(sc.Remotes), Form: r.Pick(0, 0, 1, 2), Race: r.Bool(0.15)}
 			if r.Bool(0.1) {
 				e.RemPort = 9999 // unbound port on the remote host
 			}
@@ -148,6 +154,7 @@ type mappingT struct {
 	bound    string
 	ext      string // learned external address
 	perms    map[string]bool
+	maybe    map[string]bool // permissions the real mapping may hold in addition (it may still be an older one whose fate the model could not decide)
 	// the last refresh happened within [r0, r1] (virtual clock)
 	r0, r1 time.Time
 	dead   bool // definitely expired and replaced
@@ -194,13 +201,13 @@ func run(env *simrt.Env, sci interface{}) {
 	sc := sci.(*scenario)
 	c02, c03 := prop == "C02", prop == "C03"
 	L := time.Duration(sc.LifeNs)
-	wan, err := vnet.NewRouter(&vnet.RouterConfig{CIDR: "1.0.0.0/8", LoggerFactory: quietLF()})
+	wan, err := vnet.NewRouter(&vnet.RouterConfig{CIDR: "0.0.0.0/1", LoggerFactory: quietLF()})
 	if err != nil {
 		env.Infra("NewRouter: %v", err)
 		return
 	}
 	nt := &vnet.NATType{MappingBehavior: vnet.EndpointDependencyType(sc.Mapping), FilteringBehavior: vnet.EndpointDependencyType(sc.Filtering), MappingLifeTime: L}
-	lanCfg := &vnet.RouterConfig{CIDR: "192.168.0.0/24", StaticIPs: []string{"1.2.3.1"}, NATType: nt, LoggerFactory: quietLF()}
+	lanCfg := &vnet.RouterConfig{CIDR: "192.168.0.0/24", StaticIPs: []string{"1.2.3.1"}, NATType: nt, MinDelay: time.Duration(sc.NatDelayNs), LoggerFactory: quietLF()}
 	pairExt := map[string]string{} // local ip -> external ip (1:1)
 	pairLoc := map[string]string{}
 	if sc.OneToOne > 0 {
@@ -258,7 +265,13 @@ func run(env *simrt.Env, sci interface{}) {
 	}
 	// internal hosts: two sockets per host; in 1:1 mode the first hosts own the paired local IPs
 	for h := 0; len(internals) < sc.Internal; h++ {
-		ss := mkHost(lan, fmt.Sprintf("192.168.0.%d", 1+h), 5000, 5001)
+		p2 := 5001
+		if sc.RemoteSet == 2 {
+			// 192.168.0.1:5000 towards 11.2.3.100 and 192.168.0.1:50001 towards 1.2.3.100 spell the
+			// same string when port and remote address are joined without a separator
+			p2 = 50001
+		}
+		ss := mkHost(lan, fmt.Sprintf("192.168.0.%d", 1+h), 5000, p2)
 		if ss == nil {
 			return
 		}
@@ -267,7 +280,7 @@ func run(env *simrt.Env, sci interface{}) {
 	internals = internals[:sc.Internal]
 	// 1.2.3.10 is a textual prefix of 1.2.3.100 and 1.2.3.101: keys built from strings must not confuse them
 	// set 1: addresses that agree in their low 16 bits / differ only in one high octet: keys packed into integers must not truncate them
-	remoteIPs := [][]string{{"1.2.3.100", "1.2.3.10", "1.2.3.101"}, {"1.2.3.100", "1.9.3.100", "1.200.3.100"}}[sc.RemoteSet%2]
+	remoteIPs := [][]string{{"1.2.3.100", "1.2.3.10", "1.2.3.101"}, {"1.2.3.100", "1.9.3.100", "1.200.3.100"}, {"11.2.3.100", "1.2.3.100", "1.2.3.10"}}[sc.RemoteSet%3]
 	for h := 0; len(remotes) < sc.Remotes; h++ {
 		ss := mkHost(wan, remoteIPs[h%len(remoteIPs)], 7000, 7001)
 		if ss == nil {
@@ -298,7 +311,14 @@ func run(env *simrt.Env, sci interface{}) {
 	// the pass has taken so far before it forwards it: "nothing happens any more" therefore
 	// needs a quiet period longer than a pass. Single datagrams: 100 us; bursts: 1 s.
 	quiet := 100 * time.Microsecond
-	settle := func() { env.QuiesceWithin(quiet) }
+	natDelay := time.Duration(sc.NatDelayNs)
+	settle := func() {
+		q := quiet
+		if q < 3*natDelay {
+			q = 3 * natDelay // datagrams wait in the NAT router for its minimum delay
+		}
+		env.QuiesceWithin(q)
+	}
 
 	var maps []*mappingT          // all mappings ever learned, in order of creation
 	var learned []string          // external addresses learned, in order
@@ -311,11 +331,15 @@ func run(env *simrt.Env, sci interface{}) {
 	}
 	// receivedBy returns who received tag (and the source they saw); anything else that
 	// arrived since the last call is a violation
+	ignoreTags := map[uint32]bool{} // datagrams whose fate is not judged (racing inbound)
 	collect := func(tag uint32, want []byte) (who []*sockT, src string, ok bool) {
 		for _, s := range all {
 			for s.read < len(s.inbox) {
 				it := s.inbox[s.read]
 				s.read++
+				if len(it.payload) >= 4 && ignoreTags[binary.BigEndian.Uint32(it.payload)] {
+					continue
+				}
 				if len(it.payload) >= 4 && binary.BigEndian.Uint32(it.payload) == tag {
 					if !bytes.Equal(it.payload, want) {
 						env.Fail(prop+"/payload-changed", "datagram %d arrived at %s with a different payload", tag, s.addr)
@@ -491,13 +515,42 @@ func run(env *simrt.Env, sci interface{}) {
 			}
 			dst.IP = ipForm(dst.IP, e.Form)
 			pl, tag := mkPayload()
+			var racer *simrt.Handle
+			var racePl []byte
+			var raceTag uint32
+			if e.Race && sc.OneToOne == 0 && e.RemPort == 0 {
+				// the last external address known for this flow (live or not)
+				key := is.addr.String() + "|" + part(sc.Mapping, dst)
+				var last *mappingT
+				for _, m := range maps {
+					if m.internal+"|"+m.bound == key && m.ext != "?" && m.ext != "" {
+						last = m
+					}
+				}
+				if last != nil {
+					if x, err := net.ResolveUDPAddr("udp", last.ext); err == nil {
+						racePl, raceTag = mkPayload()
+						ignoreTags[raceTag] = true
+						cp := append([]byte(nil), racePl...)
+						racer = env.Go("racing-inbound", func() { _, _ = rs.conn.WriteTo(cp, x) })
+						env.Fault("inbound-races-outbound")
+					}
+				}
+			}
 			u0 := env.Now()
 			if _, err := is.conn.WriteTo(append([]byte(nil), pl...), dst); err != nil {
 				env.Fail(prop+"/write-failed", "event %d: WriteTo: %v", ei, err)
 				return
 			}
+			if racer != nil {
+				env.Join(racer)
+			}
 			settle()
+			_, _ = racePl, raceTag // whether the racing datagram was admitted depends on the order: not judged
 			u1 := env.Now()
+			if natDelay > 0 && u0.Add(natDelay).Before(u1) {
+				u0 = u0.Add(natDelay) // the NAT router handles it no sooner than its minimum delay after the write
+			}
 			who, src, ok := collect(tag, pl)
 			if !ok {
 				return
@@ -560,9 +613,16 @@ func run(env *simrt.Env, sci interface{}) {
 					cur.perms[part(sc.Filtering, dst)] = true
 					cur.r0, cur.r1 = u0, u1
 				case cur != nil && st == unknown:
-					// refreshed or replaced by an unseen mapping: nothing is known any more
+					// refreshed (then it keeps its address and permissions) or replaced by an unseen mapping
 					cur.dead = true
-					maps = append(maps, &mappingT{internal: is.addr.String(), bound: part(sc.Mapping, dst), ext: "?", perms: map[string]bool{part(sc.Filtering, dst): true}, r0: u0, r1: u1})
+					mb := map[string]bool{}
+					for k := range cur.perms {
+						mb[k] = true
+					}
+					for k := range cur.maybe {
+						mb[k] = true
+					}
+					maps = append(maps, &mappingT{internal: is.addr.String(), bound: part(sc.Mapping, dst), ext: "?", perms: map[string]bool{part(sc.Filtering, dst): true}, maybe: mb, r0: u0, r1: u1})
 				default:
 					if cur != nil {
 						cur.dead = true
@@ -672,8 +732,17 @@ func run(env *simrt.Env, sci interface{}) {
 				env.Fail(prop+"/write-failed", "event %d: WriteTo: %v", ei, err)
 				return
 			}
-			settle()
-			u1 := env.Now()
+			var u1 time.Time
+			if natDelay > 0 {
+				// the NAT decides on arrival; only the delivery behind it waits for the router's delay:
+				// a short quiet period first, so that the instant of the decision is known closely
+				env.QuiesceWithin(quiet)
+				u1 = env.Now()
+				settle()
+			} else {
+				settle()
+				u1 = env.Now()
+			}
 			who, src, ok := collect(tag, pl)
 			if !ok {
 				return
@@ -728,7 +797,8 @@ func run(env *simrt.Env, sci interface{}) {
 				}
 			}
 			mustDeliver := owner != nil && st == alive && permitted
-			mustDrop := (owner == nil && !unknownExt) || (owner != nil && (st == expired || !permitted))
+			maybePermitted := owner != nil && owner.maybe[part(sc.Filtering, rs.addr)]
+			mustDrop := (owner == nil && !unknownExt) || (owner != nil && (st == expired || (!permitted && !maybePermitted)))
 			switch {
 			case len(who) > 1:
 				env.Fail(prop+"/duplicated", "event %d: inbound datagram was received by %d sockets", ei, len(who))
